@@ -225,6 +225,7 @@ def verdict(prop, cfg, tier, seed, pr, results, runner, drv, t0, vp):
             trusted_base=cfg.get("trusted", TRUSTED_RUST),
             theorems=pr.get("names", []),
             extraction_crosscheck_histories=pr.get("xcheck_examples", 0),
+            miri_sample_op_lines=pr.get("miri_ops", 0),
             unproved=pr["failed"], coqchk=pr.get("coqchk", "not run in the quick tier"),
             evaluations=n_hist, traces_validated_against_impl=n_hist, observations_compared=n_obs,
             distinct_nontrivial=nontriv,
@@ -262,4 +263,9 @@ def replay(path, vp):
     for x in dv:
         print("DIVERGENCE", json.dumps(x))
     bad = any(l.startswith("VIOL " + prop) for l in open(os.path.join(d, "viol"))) or dv
+    print(f"replay of {path}: {len(ops) - 1} operations; " +
+          (f"property {prop} VIOLATED on the current tree (see lines above)" if bad
+           else f"no violation of {prop} and no model/implementation divergence on the current tree"))
+    if bad:
+        print(f"VIOLATION property={prop} replay={path}")
     return 1 if bad else 0
